@@ -46,13 +46,22 @@ def rebuild_obstacle(o):
                            copy.deepcopy(o.initial_state), p2)
 
 
+def _use_shape(sh):
+    """Ordinary use of an occupancy's shape (vertices, exported geometry, a containment test)."""
+    for m in getattr(sh, "shapes", [sh]):
+        getattr(m, "vertices", None)
+        m.shapely_object
+        m.contains_point(np.array([0.0, 0.0]))
+
+
 def same_occupancy(a, b, tag, t):
     if (a is None) != (b is None):
         raise Violation(tag + "-occupancy-presence", "t=%d: mutated object %r, rebuilt %r" % (t, a, b))
     if a is None:
         return
     ga, gb = gg.lib_shape_geo(a.shape), gg.lib_shape_geo(b.shape)
-    d = gg.same_geo(ga, gb, 1e-9 * (1 + gg.geo_scale_of(gb)))
+    tol = 1e-9 * (1 + gg.geo_scale_of(gb))
+    d = gg.same_geo(ga, gb, tol) or gg.vertices_agree(a.shape, tol) or gg.export_agrees(a.shape, tol)
     if d:
         raise Violation(tag + "-occupancy-stale", "t=%d: %s" % (t, d))
 
@@ -117,7 +126,9 @@ def check_obstacle(r, ctx):
             kind = op[0]
             if kind == "query":
                 for t in op[1]:
-                    ob.occupancy_at_time(t)
+                    occ = ob.occupancy_at_time(t)
+                    if occ is not None:
+                        _use_shape(occ.shape)
                     ob.state_at_time(t)
                 queried = True
                 if mutated_after_query:
@@ -215,7 +226,7 @@ def check_static(r, ctx):
         for op in r["ops"]:
             kind = op[0]
             if kind == "query":
-                ob.occupancy_at_time(op[1])
+                _use_shape(ob.occupancy_at_time(op[1]).shape)
                 queried = True
             else:
                 if queried:
@@ -450,7 +461,8 @@ def s_light(tier):
                    st.tuples(st.just("set-elements"), cyc), st.tuples(st.just("set-offset"), st.integers(0, 12)),
                    st.tuples(st.just("set-duration"), st.integers(0, 3), st.integers(1, 9)),
                    st.tuples(st.just("set-state"), st.integers(0, 3), st.sampled_from([c.name for c in TrafficLightState])),
-                   st.tuples(st.just("copy"), st.sampled_from(["deepcopy", "pickle"])))
+                   st.tuples(st.just("copy"), st.sampled_from(["deepcopy", "pickle"])),
+                   st.tuples(st.just("reorder-in-place"), st.sampled_from(["reverse", "rotate", "repeat-first"])))
     return st.fixed_dictionaries({"cycle": cyc, "offset": st.integers(0, 6), "via": st.sampled_from(["cycle", "light"]),
                                   "ops": st.lists(op, min_size=2, max_size=8)})
 
@@ -473,6 +485,14 @@ def check_light(r, ctx):
                 cycle.cycle_elements[op[1] % len(cycle.cycle_elements)].duration = op[2]
             elif op[0] == "set-state":
                 cycle.cycle_elements[op[1] % len(cycle.cycle_elements)].state = TrafficLightState[op[2]]
+            elif op[0] == "reorder-in-place":
+                els = cycle.cycle_elements      # the list the cycle holds: same phases, other order / one repeated
+                if op[1] == "reverse":
+                    els.reverse()
+                elif op[1] == "rotate":
+                    els.append(els.pop(0))
+                else:
+                    els.append(TrafficLightCycleElement(els[0].state, els[0].duration))
             elif op[0] == "copy":
                 # the history continues on a copy (which carries whatever the original had memoised)
                 light = copy.deepcopy(light) if op[1] == "deepcopy" else pickle.loads(pickle.dumps(light))
